@@ -1,6 +1,11 @@
-"""Function-level correspondence for the per-chunk join loop
+"""Function-level correspondence for the per-chunk join loops
 
     join/set_sim_join.py : set_sim_join     (jaccard_join_py / cosine_join_py / dice_join_py)
+    join/overlap_coefficient_join_py.py : _overlap_coefficient_join_split
+    join/edit_distance_join_py.py : _edit_distance_join_split   (rows compared as a multiset: the
+        candidates are a Python set, whose iteration order is not the insertion order of the model)
+    filter/{position,prefix,size,overlap}_filter.py : _filter_tables_split   (the filter object is built by
+        the harness; its attributes are the generated function's parameters; prefix / size: multiset)
 
 The REAL function is run on random small tables (lists of lists or numpy object arrays, as the
 wrappers hand them over through `.values`), with show_progress=False.  The arguments with which
@@ -44,6 +49,10 @@ SIMTOK = ('(fun a_ b_ : pyval => match a_, b_ with PList x_, PList y_ => '
           '(map (fun v_ => match v_ with PInt z_ => z_ | _ => 0 end) y_)) | _, _ => PExc "TypeError" end)')
 
 COLS = ['id', 'i', 'd', 'str', 'A', 'attr', 'x1', 'x2', 's', 'A.id']
+
+
+class NotACase(Exception):
+    """the harness could not even construct the filter object (invalid constructor arguments)"""
 
 
 class Recorder:
@@ -115,14 +124,36 @@ def gen_side(rng, kind, universe, weights, nrows):
 
 def gen_case(rng):
     import py_stringmatching as sm  # noqa
-    m = rng.choice(gens.MEASURES_SET)
-    kind, tok = T.make_tokenizer(rng, rng.choice(['ws', 'ws', 'delim', 'qgram2']), return_set=True)
-    tcls, t = gens.any_threshold_value(rng)
-    r = rng.random()
-    if r > 0.55:
-        tcls, t = 'low', rng.choice([0.1, 0.2, 0.25, 0.3, 1.0 / 3, 0.4, 0.5, 0.5, 0.6])
-    if r < 0.03:
-        tcls, t = 'invalid', rng.choice([0, 0.0, 1.5, -0.25, 2])
+    which = rng.choice(['setsim', 'setsim', 'setsim', 'setsim', 'ovc', 'ed', 'f_position', 'f_prefix', 'f_size',
+                        'f_overlap'])
+    if which.startswith('f_'):
+        m = 'OVERLAP' if which == 'f_overlap' else rng.choice(gens.ALL_FILTER_MEASURES)
+        if m == 'EDIT_DISTANCE':
+            kind, tok = T.make_tokenizer(rng, rng.choice(['qgram2', 'qgram3', 'qgram2np']), return_set=False)
+            tcls, t = 'int', rng.choice([0, 1, 1, 2, 2, 3])
+        elif m == 'OVERLAP':
+            kind, tok = T.make_tokenizer(rng, rng.choice(['ws', 'delim', 'qgram2']), return_set=True)
+            tcls, t = 'int', rng.choice([1, 1, 2, 3])
+        else:
+            kind, tok = T.make_tokenizer(rng, rng.choice(['ws', 'ws', 'delim', 'qgram2']), return_set=True)
+            tcls, t = gens.any_threshold_value(rng)
+            if rng.random() > 0.5:
+                tcls, t = 'low', rng.choice([0.1, 0.2, 0.25, 0.3, 1.0 / 3, 0.4, 0.5, 0.5, 0.6])
+    elif which == 'ed':
+        m = 'EDIT_DISTANCE'
+        kind, tok = T.make_tokenizer(rng, rng.choice(['qgram2', 'qgram3', 'qgram2np']), return_set=False)
+        tcls, t = 'int', rng.choice([0, 1, 1, 2, 2, 3])
+        if rng.random() < 0.05:
+            tcls, t = 'odd', rng.choice([1.0, 2.5, -1])
+    else:
+        m = rng.choice(gens.MEASURES_SET) if which == 'setsim' else 'OVERLAP_COEFFICIENT'
+        kind, tok = T.make_tokenizer(rng, rng.choice(['ws', 'ws', 'delim', 'qgram2']), return_set=True)
+        tcls, t = gens.any_threshold_value(rng)
+        r = rng.random()
+        if r > 0.55:
+            tcls, t = 'low', rng.choice([0.1, 0.2, 0.25, 0.3, 1.0 / 3, 0.4, 0.5, 0.5, 0.6])
+        if r < 0.03:
+            tcls, t = 'invalid', rng.choice([0, 0.0, 1.5, -0.25, 2])
     usize = rng.choice([3, 5, 8]) if not kind.startswith('qgram') else rng.choice([2, 3])
     universe = T.WORDS[:usize]
     weights = [1.0 / (i + 1) for i in range(usize)]
@@ -131,6 +162,10 @@ def gen_case(rng):
     lc, lk, lj, L, lo = gen_side(rng, kind, universe, weights, nl)
     rc, rk, rj, R, ro = gen_side(rng, kind, universe, weights, nr)
     op = rng.choice(['>=', '>=', '>=', '>=', '>=', '>', '>', '=', '<=', '<', '!='])
+    if which == 'ed':
+        op = rng.choice(['<=', '<=', '<=', '<', '=', '>=', '!='])
+    if which == 'f_overlap':
+        op = rng.choice(['>=', '>=', '>', '='])
     bad = None
     r = rng.random()
     if r < 0.02:
@@ -139,7 +174,7 @@ def gen_case(rng):
         lk, bad = 'nokey', 'l_key_attr'
     elif r < 0.06:
         ro, bad = (ro or []) + ['zz'], 'r_out_attrs'
-    return dict(measure=m, kind=kind, tok=tok, tcls=tcls, t=t, op=op, bad=bad,
+    return dict(which=which, measure=m, kind=kind, tok=tok, tcls=tcls, t=t, op=op, bad=bad,
                 lcols=lc, lkey=lk, ljoin=lj, L=L, lout=lo, rcols=rc, rkey=rk, rjoin=rj, R=R, rout=ro,
                 allow_empty=rng.random() < 0.6, score=rng.random() < 0.6,
                 lpre=rng.choice(['l_', 'l_', 'left.', '']), rpre=rng.choice(['r_', 'r_', 'right.', '']),
@@ -147,9 +182,17 @@ def gen_case(rng):
 
 
 def run_real(cs):
+    import importlib
     import numpy as np
     import pandas as pd
-    import py_stringsimjoin.join.set_sim_join as mod
+    modname, fname = {'setsim': ('py_stringsimjoin.join.set_sim_join', 'set_sim_join'),
+                      'ovc': ('py_stringsimjoin.join.overlap_coefficient_join_py', '_overlap_coefficient_join_split'),
+                      'ed': ('py_stringsimjoin.join.edit_distance_join_py', '_edit_distance_join_split'),
+                      'f_position': ('py_stringsimjoin.filter.position_filter', '_filter_tables_split'),
+                      'f_prefix': ('py_stringsimjoin.filter.prefix_filter', '_filter_tables_split'),
+                      'f_size': ('py_stringsimjoin.filter.size_filter', '_filter_tables_split'),
+                      'f_overlap': ('py_stringsimjoin.filter.overlap_filter', '_filter_tables_split')}[cs['which']]
+    mod = importlib.import_module(modname)
     L, R = cs['L'], cs['R']
     if cs['as_array']:
         # what DataFrame[proj_attrs].values gives for mixed columns: a 2-d object array
@@ -160,16 +203,35 @@ def run_real(cs):
                     a[i, j] = v
             return a
         L, R = arr(L, len(cs['lcols'])), arr(R, len(cs['rcols']))
+    lout = None if cs['lout'] is None else list(cs['lout'])
+    rout = None if cs['rout'] is None else list(cs['rout'])
+    head = [L, R, list(cs['lcols']), list(cs['rcols']), cs['lkey'], cs['rkey'], cs['ljoin'], cs['rjoin'], cs['tok']]
+    tail = [lout, rout, cs['lpre'], cs['rpre'], cs['score'], False]
+    if cs['which'] == 'setsim':
+        args = head + [cs['measure'], cs['t'], cs['op'], cs['allow_empty']] + tail
+    elif cs['which'] == 'ovc':
+        args = head + [cs['t'], cs['op'], cs['allow_empty']] + tail
+    elif cs['which'] == 'ed':
+        args = head + [cs['t'], cs['op']] + tail
+    else:
+        cls = {'f_position': 'PositionFilter', 'f_prefix': 'PrefixFilter', 'f_size': 'SizeFilter',
+               'f_overlap': 'OverlapFilter'}[cs['which']]
+        try:
+            if cs['which'] == 'f_overlap':
+                flt = getattr(mod, cls)(cs['tok'], cs['t'], cs['op'])
+            else:
+                flt = getattr(mod, cls)(cs['tok'], cs['measure'], cs['t'], cs['allow_empty'])
+        except Exception as e:  # noqa
+            raise NotACase('%s: %s' % (type(e).__name__, e))
+        if cs['which'] == 'f_overlap':
+            args = head[:-1] + [flt, lout, rout, cs['lpre'], cs['rpre'], cs['score'], False]
+        else:
+            args = head[:-1] + [flt, lout, rout, cs['lpre'], cs['rpre'], False]
     rec = Recorder(pd)
     saved = mod.pd
     mod.pd = rec
     try:
-        df = mod.set_sim_join(L, R, list(cs['lcols']), list(cs['rcols']), cs['lkey'], cs['rkey'],
-                              cs['ljoin'], cs['rjoin'], cs['tok'], cs['measure'], cs['t'], cs['op'],
-                              cs['allow_empty'],
-                              None if cs['lout'] is None else list(cs['lout']),
-                              None if cs['rout'] is None else list(cs['rout']),
-                              cs['lpre'], cs['rpre'], cs['score'], False)
+        df = getattr(mod, fname)(*args)
     finally:
         mod.pd = saved
     if len(rec.calls) != 1:
@@ -178,6 +240,17 @@ def run_real(cs):
     rows, header = a[0], kw['columns']
     assert list(df.columns) == list(header) and len(df) == len(rows)
     return [list(r) for r in rows], list(header)
+
+
+def multiset_defs(n):
+    """rows as a multiset (the candidates are a Python set), header exactly"""
+    return ['Fixpoint %srem (x : pyval) (l : list pyval) : option (list pyval) := match l with '
+            '[] => None | y :: t => if pv_same x y then Some t else option_map (cons y) (%srem x t) end.' % (n, n),
+            'Fixpoint %sperm (a b : list pyval) : bool := match a with [] => match b with [] => true '
+            '| _ => false end | x :: t => match %srem x b with Some b2 => %sperm t b2 | None => false end end.'
+            % (n, n, n),
+            'Definition %ssame (a b : pyval) : bool := match a, b with PTuple [PList r1; h1], '
+            'PTuple [PList r2; h2] => %sperm r1 r2 && pv_same h1 h2 | _, _ => pv_same a b end.' % (n, n)]
 
 
 def build_case(gi, cs):
@@ -191,7 +264,7 @@ def build_case(gi, cs):
     lstr = [r[lj] for r in cs['L']]
     rstr = [r[rj] for r in cs['R']]
     ids = {w: i for i, w in enumerate(sorted(set(w for s in lstr + rstr for w in tok.tokenize(s))))}
-    info = {'measure': m, 'threshold': cs['t'], 'threshold_class': cs['tcls'], 'comp_op': cs['op'],
+    info = {'function': cs['which'], 'measure': m, 'threshold': cs['t'], 'threshold_class': cs['tcls'], 'comp_op': cs['op'],
             'tokenizer': cs['kind'], 'allow_empty': cs['allow_empty'], 'out_sim_score': cs['score'],
             'l_columns': cs['lcols'], 'r_columns': cs['rcols'], 'l_key_attr': cs['lkey'],
             'r_key_attr': cs['rkey'], 'l_join_attr': cs['ljoin'], 'r_join_attr': cs['rjoin'],
@@ -203,24 +276,12 @@ def build_case(gi, cs):
         expected = C.pyval_lit((rows, header))
         info['observed'] = {'rows': rows, 'header': header}
         nontrivial = len(rows) > 0
+    except NotACase:
+        raise
     except Exception as e:  # noqa
         expected = '(PExc %s)' % C.coq_str(type(e).__name__)
         info['observed'] = 'raised %s: %s' % (type(e).__name__, e)
         nontrivial = False
-    # the real similarity function on every (ordered left, ordered right) pair
-    ordering = gen_token_ordering_for_tables([cs['L'], cs['R']], [lj, rj], tok, m)
-    sim = get_sim_function(m)
-    lo = [order_using_token_ordering(tok.tokenize(s), ordering) for s in lstr]
-    ro = [order_using_token_ordering(tok.tokenize(s), ordering) for s in rstr]
-    seen, entries = set(), []
-    for x in lo:
-        for y in ro:
-            k = (tuple(x), tuple(y))
-            if k in seen:
-                continue
-            seen.add(k)
-            entries.append('PTuple [PTuple [%s; %s]; %s]' % (C.pyval_lit(list(x)), C.pyval_lit(list(y)),
-                                                             C.pyval_lit(sim(x, y))))
     sseen, titems = set(), []
     for s in lstr + rstr:
         if s in sseen:
@@ -229,21 +290,77 @@ def build_case(gi, cs):
         titems.append('PTuple [%s; PList [%s]]' % (C.pyval_lit(s), '; '.join(
             'PInt %d' % ids[w] for w in tok.tokenize(s))))
     n = 'j%d_' % gi
-    call = ('set_sim_join_rows %sL %sR %s %s %s %s %s %s (PStr %s) %s %s %s %s %s %s %s %s (PBool false) %s %stok %%s'
-            % (n, n, C.pyval_lit(cs['lcols']), C.pyval_lit(cs['rcols']), C.pyval_lit(cs['lkey']),
-               C.pyval_lit(cs['rkey']), C.pyval_lit(cs['ljoin']), C.pyval_lit(cs['rjoin']), C.coq_str(m),
-               C.pyval_lit(cs['t']), C.pyval_lit(cs['op']), C.pyval_lit(cs['allow_empty']),
-               C.pyval_lit(cs['lout']), C.pyval_lit(cs['rout']), C.pyval_lit(cs['lpre']),
-               C.pyval_lit(cs['rpre']), C.pyval_lit(cs['score']), C.pyval_lit(cs['q']), n))
     defs = ['Definition %sL := %s.' % (n, C.pyval_lit(cs['L'])),
             'Definition %sR := %s.' % (n, C.pyval_lit(cs['R'])),
             'Definition %stok := %s.' % (n, TOKFUN % ('[%s]' % '; '.join(titems))),
-            'Definition %ssim := %s.' % (n, SIMTAB % ('[%s]' % '; '.join(entries))),
             'Definition %sexp := %s.' % (n, expected)]
-    exprs = ['pv_same (%s) %sexp' % (call % ('%ssim' % n), n),
-             'pv_same (%s) %sexp' % (call % (SIMTOK % C.coq_str(m)), n)]
-    labels = ['set_sim_join_rows (sim_fn = table of the real similarity values)',
-              'set_sim_join_rows (sim_fn = sim_tok of Model/Joins.v)']
+    common = ' '.join(C.pyval_lit(cs[k]) for k in ('lcols', 'rcols', 'lkey', 'rkey', 'ljoin', 'rjoin'))
+    outs = ' '.join(C.pyval_lit(cs[k]) for k in ('lout', 'rout', 'lpre', 'rpre', 'score'))
+    if cs['which'] == 'setsim':
+        # the real similarity function on every (ordered left, ordered right) pair
+        ordering = gen_token_ordering_for_tables([cs['L'], cs['R']], [lj, rj], tok, m)
+        sim = get_sim_function(m)
+        lo = [order_using_token_ordering(tok.tokenize(s), ordering) for s in lstr]
+        ro = [order_using_token_ordering(tok.tokenize(s), ordering) for s in rstr]
+        seen, entries = set(), []
+        for x in lo:
+            for y in ro:
+                k = (tuple(x), tuple(y))
+                if k in seen:
+                    continue
+                seen.add(k)
+                entries.append('PTuple [PTuple [%s; %s]; %s]' % (C.pyval_lit(list(x)), C.pyval_lit(list(y)),
+                                                                 C.pyval_lit(sim(x, y))))
+        call = ('set_sim_join_rows %sL %sR %s (PStr %s) %s %s %s %s (PBool false) %s %stok %%s'
+                % (n, n, common, C.coq_str(m), C.pyval_lit(cs['t']), C.pyval_lit(cs['op']),
+                   C.pyval_lit(cs['allow_empty']), outs, C.pyval_lit(cs['q']), n))
+        defs.append('Definition %ssim := %s.' % (n, SIMTAB % ('[%s]' % '; '.join(entries))))
+        exprs = ['pv_same (%s) %sexp' % (call % ('%ssim' % n), n),
+                 'pv_same (%s) %sexp' % (call % (SIMTOK % C.coq_str(m)), n)]
+        labels = ['set_sim_join_rows (sim_fn = table of the real similarity values)',
+                  'set_sim_join_rows (sim_fn = sim_tok of Model/Joins.v)']
+    elif cs['which'] == 'ovc':
+        call = ('overlap_coefficient_join_split_rows %sL %sR %s %s %s %s %s (PBool false) %stok'
+                % (n, n, common, C.pyval_lit(cs['t']), C.pyval_lit(cs['op']), C.pyval_lit(cs['allow_empty']),
+                   outs, n))
+        exprs = ['pv_same (%s) %sexp' % (call, n)]
+        labels = ['overlap_coefficient_join_split_rows']
+    elif cs['which'].startswith('f_'):
+        outs4 = ' '.join(C.pyval_lit(cs[k]) for k in ('lout', 'rout', 'lpre', 'rpre'))
+        multiset = cs['which'] in ('f_prefix', 'f_size')
+        if cs['which'] == 'f_overlap':
+            call = ('overlap_filter_tables_split_rows %sL %sR %s %s %s %s (PBool false) %stok'
+                    % (n, n, common, C.pyval_lit(cs['t']), C.pyval_lit(cs['op']), outs, n))
+        elif cs['which'] == 'f_size':
+            call = ('size_filter_tables_split_rows %sL %sR %s (PStr %s) %s %s %s (PBool false) %stok'
+                    % (n, n, common, C.coq_str(m), C.pyval_lit(cs['t']), C.pyval_lit(cs['allow_empty']), outs4, n))
+        else:
+            call = ('%s_filter_tables_split_rows %sL %sR %s (PStr %s) %s %s %s (PBool false) %s %stok'
+                    % (cs['which'][2:], n, n, common, C.coq_str(m), C.pyval_lit(cs['t']),
+                       C.pyval_lit(cs['allow_empty']), outs4, C.pyval_lit(cs['q']), n))
+        if multiset:
+            defs += multiset_defs(n)
+            exprs = ['%ssame (%s) %sexp' % (n, call, n)]
+        else:
+            exprs = ['pv_same (%s) %sexp' % (call, n)]
+        labels = ['%s_filter_tables_split_rows%s' % (cs['which'][2:], ' (rows as a multiset)' if multiset else '')]
+    else:
+        # Levenshtein on every (left string, right string) pair
+        sim = get_sim_function(m)
+        seen, entries = set(), []
+        for x in lstr:
+            for y in rstr:
+                if (x, y) in seen:
+                    continue
+                seen.add((x, y))
+                entries.append('PTuple [PTuple [%s; %s]; %s]' % (C.pyval_lit(x), C.pyval_lit(y),
+                                                                 C.pyval_lit(sim(x, y))))
+        defs.append('Definition %ssim := %s.' % (n, SIMTAB % ('[%s]' % '; '.join(entries))))
+        defs += multiset_defs(n)
+        call = ('edit_distance_join_split_rows %sL %sR %s %s %s %s (PBool false) %s %stok %ssim'
+                % (n, n, common, C.pyval_lit(cs['t']), C.pyval_lit(cs['op']), outs, C.pyval_lit(cs['q']), n, n))
+        exprs = ['%ssame (%s) %sexp' % (n, call, n)]
+        labels = ['edit_distance_join_split_rows (rows as a multiset)']
     return '\n'.join(defs), exprs, labels, info, nontrivial
 
 
@@ -256,13 +373,13 @@ def run(seed, n):
         cs = gen_case(rng)
         try:
             defs, exprs, labels, info, nontriv = build_case(k, cs)
-        except Exception as e:  # noqa   (the harness itself could not abstract the case)
-            res['exceptions'].append({'case': k, 'call': {'measure': cs['measure'], 'threshold': cs['t'],
+        except Exception as e:  # noqa   (not a case: the filter constructor rejected the arguments)
+            res['exceptions'].append({'case': k, 'call': {'function': cs['which'], 'measure': cs['measure'], 'threshold': cs['t'], 'comp_op': cs['op'],
                                                           'observed_exception': '%s: %s' % (type(e).__name__, e)}})
             continue
         kind = 'raises' if isinstance(info['observed'], str) else \
             ('rows' if info['observed']['rows'] else 'no rows')
-        key = '%s/%s/%s' % (cs['measure'], cs['op'], kind)
+        key = '%s/%s/%s' % (cs['which'], cs['measure'], kind)
         res['distribution'][key] = res['distribution'].get(key, 0) + 1
         res['evaluations'] += len(exprs)
         res['nontrivial'] += 1 if nontriv else 0
@@ -273,7 +390,7 @@ def run(seed, n):
     bad = C.run_groups('joingen_%d' % seed, IMPORTS, groups, shard=25)
     for gi, ei in sorted(bad):
         k, labels, info = meta[gi]
-        rec = {'case': k, 'which': 'generated %s vs the real set_sim_join' % labels[ei], 'call': info}
+        rec = {'case': k, 'which': 'generated %s vs the real function' % labels[ei], 'call': info}
         (res['differ'] if ei == 0 else res['spec_fail']).append(rec)
     return res
 
